@@ -148,12 +148,12 @@ theorem extract_once (rules : List String) (ts : List Translator) (ds : List Ele
 /-- key naming on concrete elements (kernel-evaluated): keyword, camel-cased private name with
     brackets stripped, tag suffix format -/
 theorem key_examples :
-    elemKey ⟨0x18, 0x81, "EchoTime", "Echo Time", false, false, false, false, none, none⟩ = "EchoTime" ∧
-    elemKey ⟨0x19, 0x100a, "", "[Number Of Images In Mosaic]", false, false, false, false, none, none⟩ =
+    elemKey ⟨0x18, 0x81, "EchoTime", "Echo Time", false, false, false, false, none, none, false⟩ = "EchoTime" ∧
+    elemKey ⟨0x19, 0x100a, "", "[Number Of Images In Mosaic]", false, false, false, false, none, none, false⟩ =
       "NumberOfImagesInMosaic" ∧
-    elemKey ⟨0x19, 0x100b, "", "slice measurement  duration", false, false, false, false, none, none⟩ =
+    elemKey ⟨0x19, 0x100b, "", "slice measurement  duration", false, false, false, false, none, none, false⟩ =
       "SliceMeasurementDuration" ∧
-    elemKey ⟨0x19, 0x100c, "", "Private tag data", false, false, false, false, none, none⟩ = "PrivateTagData" ∧
+    elemKey ⟨0x19, 0x100c, "", "Private tag data", false, false, false, false, none, none, false⟩ = "PrivateTagData" ∧
     tagToStr 0x10 0x20 = "0X10_0X20" ∧ tagToStr 0x7fe0 0x10 = "0X7FE0_0X10" := by decide +kernel
 
 end Ex
